@@ -14,8 +14,24 @@ _ENV = {'PYTHONHASHSEED': '0', 'OMP_NUM_THREADS': '1', 'OPENBLAS_NUM_THREADS': '
         'MKL_NUM_THREADS': '1', 'TQDM_DISABLE': '1', 'MPLBACKEND': 'Agg'}
 
 
+def _hashseed(argv):
+    """the iteration order of sets of strings inside the library is one more source of nondeterminism: it is fixed per
+    process by PYTHONHASHSEED, which is derived from VERIF_SEED (a replay takes the value recorded in its file)"""
+    if len(argv) > 2 and argv[1] == 'replay':
+        try:
+            import json
+            return str(int(json.load(open(argv[2])).get('hashseed', 0)))
+        except Exception:
+            return '0'
+    try:
+        return str(int(os.environ.get('VERIF_SEED', '0')) % 4294967296)
+    except ValueError:
+        return '0'
+
+
 def _reexec_if_needed():
     need = False
+    _ENV['PYTHONHASHSEED'] = _hashseed(sys.argv)
     for k, v in _ENV.items():
         if k == 'PYTHONHASHSEED' and os.environ.get('VERIF_KEEP_HASHSEED'):
             continue
